@@ -150,12 +150,51 @@ def table_of(L):
     return [[enc_str(k), [enc_str(a) for a in (s.aliases or [])], 1 if s.is_exception else 0] for k, s in L.known_symbols.items()]
 
 
+def edit_returned_index(le):
+    """A caller edits the list it got from get_license_index() in place (as one does to derive an index of one's own): the
+    ready-made Licensings are built from the bundled file, not from the caller's copy."""
+    got = le.get_license_index()
+    for e in got[:60]:
+        e['is_deprecated'] = not e.get('is_deprecated', False)
+        e['is_exception'] = not e.get('is_exception', False)
+        e['license_key'] = 'edited-' + e.get('license_key', '')
+    del got[60:160]
+
+
+def two_files_one_path(le, A, B):
+    """Two index files written one after the other to the same path: each load reflects the file as it is then."""
+    import os
+    from core import BUILD
+    path = os.path.join(BUILD, 'c15_index_%d.json' % os.getpid())
+    try:
+        out = []
+        for sidx in (A, B):
+            with open(path, 'w') as f:
+                json.dump(sidx, f)
+            want = list(dict.fromkeys(e.get('license_key', '') for e in sidx if not e.get('is_deprecated', False)))
+            g = outcome_of(lambda: list(le.get_scancode_licensing(path).known_symbols), lambda x: x)
+            h = outcome_of(lambda: [e.get('license_key', '') for e in le.get_license_index(path)], lambda x: x)
+            if g[0] == 0 and g[1] != want:
+                out.append('get_scancode_licensing(path) knows %r, the file at that path lists %r' % (g[1][:6], want[:6]))
+            if h[0] == 0 and h[1] != [e.get('license_key', '') for e in sidx]:
+                out.append('get_license_index(path) does not return the entries of the file at that path')
+        return out
+    finally:
+        if os.path.exists(path):
+            os.remove(path)
+
+
 def run(rep, tier, seed):
     le = imp()
     rng = random.Random(seed)
     rep.broken = []
     rep.compared = 0
-    idx = le.get_license_index()
+    with open(le.vendored_scancode_licensedb_index_location) as f:
+        idx = json.load(f)        # the bundled file itself, read independently of the library's loader
+    if idx != le.get_license_index():
+        rep.violations.append({'key': 'loader', 'kind': 'index-loader', 'text': 'get_license_index()',
+                               'what': 'get_license_index() does not return the entries of the bundled file'})
+    edit_returned_index(le)
     SC = le.get_scancode_licensing()
     SP = le.get_spdx_licensing()
     sc_entries = [(e['license_key'], [e['license_key']], bool(e.get('is_exception'))) for e in idx if not e.get('is_deprecated')]
@@ -216,6 +255,12 @@ def run(rep, tier, seed):
             if bad:
                 rep.violations.append({'key': 'compound', 'kind': 'name', 'table': label, 'text': text,
                                        'what': 'compound over bundled names: keys %r, expected %r' % (got, keys)})
+    # two synthetic index files at one path
+    for _ in range(20 if tier == 'thorough' else 5):
+        A, B = synth_index(rng), synth_index(rng)
+        rep.count('two_files_one_path')
+        for what in two_files_one_path(le, A, B)[:1]:
+            rep.violations.append({'key': 'index-file', 'kind': 'index-file', 'A': A, 'B': B, 'text': 'two index files at one path', 'what': what})
     # synthetic indexes against the model
     m = 2000 if tier == 'thorough' else 300
     reqs, metas = [], []
@@ -266,14 +311,35 @@ def run(rep, tier, seed):
 
 def replay(payload):
     le = imp()
+    if payload.get('kind') == 'index-loader':
+        with open(le.vendored_scancode_licensedb_index_location) as f:
+            idx = json.load(f)
+        edit_returned_index(le)
+        ok = idx == le.get_license_index()
+        return ok, 'get_license_index() %s the bundled file after a caller edited an earlier result' % ('returns' if ok else 'does not return')
+    if payload.get('kind') == 'index-file':
+        bad = two_files_one_path(le, payload['A'], payload['B'])
+        return not bad, bad[0] if bad else 'each load reflects the file'
     if payload.get('kind') == 'name':
+        edit_returned_index(le)
         L = le.get_scancode_licensing() if payload['table'] == 'scancode' else le.get_spdx_licensing()
+        v, key = payload['text'], payload.get('expected')
         try:
-            e = L.parse(payload['text'])
-            ok = payload.get('expected') is None or str(e) == payload['expected']
+            e = L.parse(v)
+            if key is not None and isinstance(e, le.LicenseSymbol) and (e.key != key or str(e) != key):
+                return False, 'parses to %r' % (e,)
+            if key is not None and isinstance(e, le.LicenseSymbol):
+                with open(le.vendored_scancode_licensedb_index_location) as f:
+                    ref = json.load(f)
+                kk = 'license_key' if payload['table'] == 'scancode' else 'spdx_license_key'
+                flags = [bool(x.get('is_exception')) for x in ref if x.get(kk) == key and not x.get('is_deprecated')]
+                if flags and bool(e.is_exception) != flags[0]:
+                    return False, 'parses to %r, the index flags it %r' % (e, flags[0])
+                if L.unknown_license_keys(v) or L.validate(v, strict=False).errors:
+                    return False, 'listed as unknown / does not validate'
         except Exception as ex:   # noqa
             return False, repr(ex)
-        return ok, 'parses to %s' % e
+        return True, 'parses to %s' % e
     if payload.get('kind') == 'index-build':
         from props import c14
         sidx = payload['index']
